@@ -156,7 +156,7 @@ func TestPropThresholdsSmallExhaustive(t *testing.T) {
 // TestPropThresholdsRandom: random power vectors (small and up to 2^60); all pairs of subsets the counter calls quorums
 // must intersect outside every admissible faulty set; the complement of every admissible faulty set must be a quorum.
 func TestPropThresholdsRandom(t *testing.T) {
-	stats.Check(t, stats.Budget{Quick: 3000, Thorough: 40000},
+	stats.Check(t, stats.Budget{Quick: 3000, Thorough: 30000},
 		"n in 1..7 validators, powers from {1..4, 1..30, near 2^k up to 2^60, total forced to each residue mod 3}; all 2^n voter subsets fed to real vote counters; "+
 			"oracles: pairwise quorum intersection not admissible as faulty set, f+1 sets not admissible, complement of every admissible faulty set is a quorum; "+
 			"non-trivial = some subset has power within 1 of a threshold",
